@@ -349,6 +349,19 @@ impl<'a, C: Crypto> CaseResponder<'a, C> {
                     }
                 };
 
+                // The whole message is hashed into the transcript the session keys are derived
+                // from, and nothing that follows checks that hash. Bytes after the (anonymous)
+                // TLV structure - which the initiator did not send and did not hash - would leave
+                // the two ends with different session keys: refuse them.
+                let exact = req
+                    .raw_value()
+                    .map(|v| v.len() + 1 == exchange.rx().map(|rx| rx.payload().len()).unwrap_or(0))
+                    .unwrap_or(false);
+                if !exact {
+                    error!("Sigma3 carries data after its TLV structure");
+                    return Ok(SCStatusCodes::InvalidParameter);
+                }
+
                 let mut decrypted = alloc!([0; CASE_LARGE_BUF_SIZE]); // TODO LARGE BUFFER
                 if encrypted.len() > decrypted.len() {
                     error!(
